@@ -1007,3 +1007,118 @@ def inline_private_methods(tree: ast.Module) -> int:
         if isinstance(n, ast.ClassDef):
             total += _inline_methods_in_class(n)
     return total
+
+
+def inline_return_temps(tree: ast.Module) -> int:
+    """`x = E` immediately followed by `return x`, with `x` used nowhere else in the function: read as `return E` (an
+    explaining variable for the result says nothing a rule should depend on)."""
+    total = 0
+    for f in [n for n in ast.walk(tree) if isinstance(n, (ast.FunctionDef, ast.AsyncFunctionDef))]:
+        uses: Dict[str, int] = {}
+        for x in ast.walk(f):
+            if isinstance(x, ast.Name):
+                uses[x.id] = uses.get(x.id, 0) + 1
+        params = {a.arg for a in f.args.posonlyargs + f.args.args + f.args.kwonlyargs}
+        for blk_owner in ast.walk(f):
+            for fld in ('body', 'orelse', 'finalbody'):
+                blk = getattr(blk_owner, fld, None)
+                if not isinstance(blk, list) or len(blk) < 2:
+                    continue
+                i = 0
+                while i + 1 < len(blk):
+                    a, r = blk[i], blk[i + 1]
+                    if isinstance(a, ast.Assign) and len(a.targets) == 1 and isinstance(a.targets[0], ast.Name) and isinstance(r, ast.Return) \
+                            and isinstance(r.value, ast.Name) and r.value.id == a.targets[0].id and uses.get(r.value.id, 0) == 2 and r.value.id not in params:
+                        new = ast.copy_location(ast.Return(value=a.value), a)
+                        blk[i:i + 2] = [new]
+                        total += 1
+                        continue
+                    i += 1
+    return total
+
+
+def normalise_yoda(tree: ast.Module) -> int:
+    """`0 == d`, `'strict' != name`, `Type.VERBATIM == s.type`, `None is x`, `0 > n`: a one-operator comparison with a constant
+    (a literal, or a dotted name in capitals such as an enumeration member) on the left and something else on the right is
+    read with the operands the other way round."""
+    FLIP = {ast.Lt: ast.Gt, ast.Gt: ast.Lt, ast.LtE: ast.GtE, ast.GtE: ast.LtE, ast.Eq: ast.Eq, ast.NotEq: ast.NotEq, ast.Is: ast.Is, ast.IsNot: ast.IsNot}
+
+    def constant_like(e: ast.AST) -> bool:
+        if isinstance(e, ast.Constant):
+            return True
+        if isinstance(e, ast.UnaryOp) and isinstance(e.op, ast.USub) and isinstance(e.operand, ast.Constant):
+            return True
+        if isinstance(e, ast.Attribute) and isinstance(e.value, ast.Name) and e.attr.isupper() and e.value.id[:1].isupper():
+            return True
+        return False
+
+    total = 0
+    for x in ast.walk(tree):
+        if isinstance(x, ast.Compare) and len(x.ops) == 1 and type(x.ops[0]) in FLIP and constant_like(x.left) and not constant_like(x.comparators[0]):
+            x.left, x.comparators[0] = x.comparators[0], x.left
+            x.ops = [FLIP[type(x.ops[0])]()]
+            total += 1
+    return total
+
+
+def normalise_negated_if(tree: ast.Module) -> int:
+    """`if not C: A else: B` (both branches present, B not an `elif` chain) is read as `if C: B else: A`."""
+    total = 0
+    for x in ast.walk(tree):
+        if isinstance(x, ast.If) and x.orelse and isinstance(x.test, ast.UnaryOp) and isinstance(x.test.op, ast.Not) \
+                and not (len(x.orelse) == 1 and isinstance(x.orelse[0], ast.If)):
+            x.test = x.test.operand
+            x.body, x.orelse = x.orelse, x.body
+            total += 1
+    return total
+
+
+def normalise_small_forms(tree: ast.Module) -> int:
+    """Three spellings read as one:
+       `x = x + <number-like>`            as `x += <number-like>`   (a literal number, `len(...)`, or arithmetic over those);
+       `(not a) or (not b)` / `and`       as `not (a and b)` / `not (a or b)`;
+       `if a:` holding nothing but `if b: S` (no `else` on either)   as `if a and b: S`."""
+    total = 0
+
+    def number_like(e: ast.AST) -> bool:
+        if isinstance(e, ast.Constant):
+            return type(e.value) in (int, float)
+        if isinstance(e, ast.Call) and isinstance(e.func, ast.Name) and e.func.id == 'len':
+            return True
+        if isinstance(e, ast.BinOp) and isinstance(e.op, (ast.Add, ast.Sub, ast.Mult)):
+            return number_like(e.left) and number_like(e.right)
+        return False
+
+    class T(ast.NodeTransformer):
+        def visit_Assign(self, node):
+            nonlocal total
+            self.generic_visit(node)
+            if len(node.targets) == 1 and isinstance(node.targets[0], ast.Name) and isinstance(node.value, ast.BinOp) and isinstance(node.value.op, (ast.Add, ast.Sub)) \
+                    and isinstance(node.value.left, ast.Name) and node.value.left.id == node.targets[0].id and number_like(node.value.right):
+                total += 1
+                return ast.copy_location(ast.AugAssign(target=ast.Name(id=node.targets[0].id, ctx=ast.Store()), op=node.value.op, value=node.value.right), node)
+            return node
+
+        def visit_BoolOp(self, node):
+            nonlocal total
+            self.generic_visit(node)
+            if len(node.values) >= 2 and all(isinstance(v, ast.UnaryOp) and isinstance(v.op, ast.Not) for v in node.values):
+                total += 1
+                dual = ast.And() if isinstance(node.op, ast.Or) else ast.Or()
+                return ast.copy_location(ast.UnaryOp(op=ast.Not(), operand=ast.BoolOp(op=dual, values=[v.operand for v in node.values])), node)
+            return node
+
+        def visit_If(self, node):
+            nonlocal total
+            self.generic_visit(node)
+            if not node.orelse and len(node.body) == 1 and isinstance(node.body[0], ast.If) and not node.body[0].orelse:
+                inner = node.body[0]
+                vals = (node.test.values if isinstance(node.test, ast.BoolOp) and isinstance(node.test.op, ast.And) else [node.test]) + \
+                       (inner.test.values if isinstance(inner.test, ast.BoolOp) and isinstance(inner.test.op, ast.And) else [inner.test])
+                total += 1
+                return ast.copy_location(ast.If(test=ast.BoolOp(op=ast.And(), values=vals), body=inner.body, orelse=[]), node)
+            return node
+
+    T().visit(tree)
+    ast.fix_missing_locations(tree)
+    return total
